@@ -282,6 +282,12 @@ impl Runtime {
         self.revision_cancelled.load(Ordering::Acquire)
     }
 
+    /// H7: lock transfers currently recorded in the dependency graph.
+    #[cfg(salsa_rs_salsa_verif)]
+    pub(crate) fn verif_transferred(&self) -> Vec<(DatabaseKeyIndex, DatabaseKeyIndex)> {
+        self.dependency_graph.lock().verif_transferred()
+    }
+
     pub(crate) fn cancellation_count(&self) -> u8 {
         self.cancellation_count.load(Ordering::Acquire)
     }
